@@ -35,6 +35,13 @@ type Case struct {
 	Expect     string `json:"expect"`
 	TooLargeAt int    `json:"too_large_at"`
 	Class      string `json:"class"` // input class used in finding keys
+	// Reuse: the buffer handed to the next ReadNext call is the SAME backing
+	// array (unread remainder moved to its front, capacity as ReadNext left
+	// it), the way a pooled buffer travels through a stream.
+	Reuse bool `json:"reuse_buffer,omitempty"`
+	// Relay: every returned message is written with WriteNext(dst[:n]) before
+	// the look-ahead dst[n:] is used: writing must not touch it.
+	Relay bool `json:"relay,omitempty"`
 }
 
 type viol struct{ key, what string }
@@ -152,8 +159,24 @@ func Exec(c *Case) (vs []viol, calls int, shape string) {
 			add("over-limit-returned", fmt.Sprintf("message %d of %d bytes returned (n=%d) with limit %d", idx, len(c.Msgs[idx]), n, c.Limit))
 			return vs, calls, "toolarge-returned"
 		}
-		buf = make([]byte, len(dst)-n, len(dst)-n+c.CapExtra)
-		copy(buf, dst[n:])
+		if c.Relay {
+			var sink bytes.Buffer
+			look := append([]byte(nil), dst[n:]...)
+			if _, werr := codecOf(c.Codec).WriteNext(&sink, dst[:n]); werr != nil {
+				add("relay-write-error", werr.Error())
+				return vs, calls, "relay"
+			}
+			if !bytes.Equal(dst[n:], look) {
+				add("writenext-modified-lookahead", fmt.Sprintf("after WriteNext(dst[:%d]) the %d look-ahead bytes behind the message differ from what ReadNext had returned", n, len(look)))
+				return vs, calls, "relay"
+			}
+		}
+		if c.Reuse {
+			buf = append(dst[:0], dst[n:]...)
+		} else {
+			buf = make([]byte, len(dst)-n, len(dst)-n+c.CapExtra)
+			copy(buf, dst[n:])
+		}
 	}
 	if calls >= maxCalls {
 		add("no-progress", fmt.Sprintf("%d ReadNext calls without reaching a terminal error", calls))
@@ -247,6 +270,54 @@ func padVarint(v uint64, k int) []byte {
 		out = append(out, b)
 	}
 	return out
+}
+
+// writerCases checks WriteNext as a writer: sub-slices of one arena with live
+// bytes behind every message.
+func writerCases(g *gen) {
+	for round := 0; round < g.r.Pick(60, 2000); round++ {
+		k := 1 + g.rng.Intn(6)
+		var arena []byte
+		var bounds [][2]int
+		for i := 0; i < k; i++ {
+			n := []int{0, 1, 2, 5, 127, 128, 300, 16383, 16384}[g.rng.Intn(9)]
+			start := len(arena)
+			arena = append(arena, payload(g.rng, n)...)
+			bounds = append(bounds, [2]int{start, len(arena)})
+		}
+		arena = append(arena, 0xAA, 0xBB, 0xCC, 0xDD, 0xEE, 0xFF, 0x11, 0x22) // canary tail
+		arena = append(make([]byte, 0, len(arena)+64), arena...)              // and spare capacity
+		pristine := append([]byte(nil), arena...)
+		var out bytes.Buffer
+		var want []byte
+		g.r.Eval(1)
+		for _, b := range bounds {
+			m := arena[b[0]:b[1]]
+			want = protowire.AppendVarint(want, uint64(len(m)))
+			want = append(want, pristine[b[0]:b[1]]...)
+			var werr error
+			pi := mon.Catch(func() { _, werr = (larking.CodecProto{}).WriteNext(&out, m) })
+			g.r.Count("writenext_calls", 1)
+			c := map[string]any{"sizes": bounds, "class": "write-arena"}
+			if pi != nil {
+				g.r.Violate(pi.Key(), "WriteNext panicked: "+pi.Value, c)
+				return
+			}
+			if werr != nil {
+				g.r.Violate("proto:writenext-error:write-arena", werr.Error(), c)
+				return
+			}
+			if !bytes.Equal(arena[:len(pristine)], pristine) {
+				g.r.Violate("proto:writenext-modified-callers-memory:write-arena", fmt.Sprintf("after WriteNext of the %d-byte message at [%d:%d] the arena it is a sub-slice of has changed", len(m), b[0], b[1]), c)
+				return
+			}
+		}
+		if !bytes.Equal(out.Bytes(), want) {
+			g.r.Violate("proto:writenext-wrong-framing:write-arena", fmt.Sprintf("WriteNext produced %d bytes, the reference framing has %d", out.Len(), len(want)), map[string]any{"sizes": bounds})
+			return
+		}
+		g.r.Distinct(fmt.Sprintf("write-arena/k=%d", k))
+	}
 }
 
 func protoStream(msgs [][]byte) []byte {
@@ -462,6 +533,27 @@ func Run(r *mon.Run) {
 			}
 		}
 	}
+	// 2c. a buffer that travels through the stream (same backing array, the
+	// capacity the previous message grew it to) and growth steps between
+	// 1.0x and 2.5x of that capacity
+	for _, s1 := range []int{60, 64, 200, 1000, 1024, 1500, 2000, 4096, 9000} {
+		for _, f := range []int{100, 110, 124, 125, 126, 150, 167, 199, 200, 201, 250} {
+			s2 := s1 * f / 100
+			for _, s0 := range []int{0, 5} {
+				msgs := [][]byte{payload(g.rng, s0), payload(g.rng, s1), payload(g.rng, s2), payload(g.rng, 3)}
+				st := protoStream(msgs)
+				for _, cuts := range [][]int{{len(st)}, {1 + g.rng.Intn(9), 1 + g.rng.Intn(4000)}, {4096}} {
+					for _, relay := range []bool{false, true} {
+						g.run(&Case{Codec: "proto", Msgs: msgs, Stream: st, Cuts: cuts, Limit: 1 << 20, Expect: "ok", Class: "reused-buffer", Reuse: true, Relay: relay})
+					}
+				}
+			}
+		}
+	}
+	// 2d. WriteNext on messages that live in one arena (marshalled back to
+	// back): the arena must be untouched and the output must be the
+	// reference framing
+	writerCases(g)
 	// 3. limits around each size
 	for _, n := range []int{1, 2, 127, 128, 129, 300} {
 		for _, pre := range []int{0, 1, 2} {
